@@ -514,7 +514,7 @@ func runProps(r *core.Run) {
 	// chain without a cache shares nothing between the transforms: not a scenario
 	var pick []propScen
 	want := r.Pick(400, 3000)
-	wantBulk := r.Pick(240, 100000) // thorough: the whole bulk family
+	wantBulk := r.Pick(240, 2000)
 	r.Rand.Shuffle(len(scens), func(i, j int) { scens[i], scens[j] = scens[j], scens[i] })
 	nb, ns, bulkAll := 0, 0, 0
 	for _, s := range scens {
@@ -647,7 +647,7 @@ func runProps(r *core.Run) {
 		sb.WriteByte('\n')
 	}
 	var verdicts []propVerdict
-	vres, err := tlcrun.Run(r, tlcrun.Options{Module: "RenameProps", Config: "RenameProps.cfg", Workers: 1, TimeoutSec: 900,
+	vres, err := tlcrun.Run(r, tlcrun.Options{Module: "RenameProps", Config: "RenameProps.cfg", Workers: 1, TimeoutSec: 2400,
 		Files: map[string]string{"c15props.ndjson": sb.String()},
 		OnCase: func(raw []byte) {
 			var v propVerdict
